@@ -42,6 +42,11 @@ pub enum Op {
     BulkCreate(u16),
     /// create 101-149 or 201-249 small files (more changes than two internal batches of 50)
     BulkSmall(u16),
+    /// change a file to content it never had, then put its modification time back to a moment
+    /// long before any checkpoint was written (what `cp -p`, `tar -x` or `rsync -t` do)
+    EditOldMtime(u16),
+    /// the same for the case's hot file
+    HotEditOldMtime,
 }
 
 pub const BIG_SIZES: [usize; 9] = [
@@ -114,6 +119,7 @@ pub struct Hist {
     pub hot: String,
     pub big: bool,
     pub tail_edit: bool,
+    pub old_mtime: bool,
 }
 
 fn is_sentinel(p: &str) -> bool {
@@ -145,6 +151,7 @@ impl Hist {
             hot: HOT[0].to_string(),
             big: false,
             tail_edit: false,
+            old_mtime: false,
         };
         // initial content: whatever install_config wrote plus a few ordinary files
         for p in HOT {
@@ -405,6 +412,28 @@ impl Hist {
                 self.work.insert(p.clone(), c);
                 self.tail_edit = true;
                 format!("edit {:?}", p)
+            }
+            Op::EditOldMtime(_) | Op::HotEditOldMtime => {
+                let p = match op {
+                    Op::HotEditOldMtime => self.hot.clone(),
+                    Op::EditOldMtime(f) => {
+                        let e = self.editable();
+                        if e.is_empty() {
+                            return Ok("noop".into());
+                        }
+                        e[pick(*f, e.len())].clone()
+                    }
+                    _ => unreachable!(),
+                };
+                let c = self.fresh(&p);
+                self.env.write_file(&p, &c);
+                self.work.insert(p.clone(), c);
+                self.counter += 1;
+                let old = std::time::UNIX_EPOCH + std::time::Duration::from_secs(978_307_200 + self.counter as u64);
+                let f = std::fs::OpenOptions::new().write(true).open(self.env.path(&p)).map_err(|e| e.to_string())?;
+                f.set_modified(old).map_err(|e| e.to_string())?;
+                self.old_mtime = true;
+                format!("edit (mtime set back) {:?}", p)
             }
             Op::Rewrite(f) => {
                 let e = self.editable();
